@@ -133,6 +133,12 @@ def observe(keys):
         again = lv[0].path(output_format='list')
         if not (type(again) is type(out['tree_list']) and again == out['tree_list']) or lv[0].path() != s_form:
             out['tree_list'] = ('UNSTABLE', out['tree_list'], again)
+    try:
+        from deepdiff import DeepSearch
+        sp = list(DeepSearch(t1, l1, verbose_level=2, case_sensitive=False).get('matched_values', {}))
+        out['search_paths'] = sp
+    except Exception as e:
+        out['search_paths'] = 'raised ' + type(e).__name__
     if isinstance(out['parsed'], list):
         try:
             out['stringified'] = stringify_path(out['parsed'], root_element=('root', GET))
@@ -265,6 +271,11 @@ def run(ctx, impl_only=False):
                 ctx.violate(case, 'tree list-form path = %r, expected %r' % (o['tree_list'], plain))
             if o.get('stringified') != o['path']:
                 ctx.violate(case, 'stringify_path(parse_path(%r)) = %r' % (o['path'], o.get('stringified')))
+            # the path DeepSearch reports for the same location (a case-insensitive search for the leaf) is the same string
+            if all(isinstance(k, (str, Idx)) or k is None or isinstance(k, (int, float, bool)) for k in ks) and isinstance(o.get('search_paths'), list):
+                if o['search_paths'] != [o['path']]:
+                    if not any(isinstance(k, str) and 'old-leaf' in k for k in ks):
+                        ctx.violate(case, 'DeepSearch reports %r for the location DeepDiff reports as %r' % (o['search_paths'], o['path']))
         nonfinite = any(isinstance(k, float) and (k != k or k in (float('inf'), float('-inf'))) for k in ks)
         if not dom and 'crash' not in o:
             # outside the domain of the string form (a key with both quote kinds, finding F8a; a non-finite float key, which DeepDiff declares
